@@ -14,6 +14,7 @@ type LineFormatPlanner struct {
 	Template string
 
 	formatStr string
+	text      string
 	args      []sql.SQLObject
 }
 
@@ -29,6 +30,10 @@ func (l *LineFormatPlanner) Process(ctx *shared.PlannerContext) (sql.ISelect, er
 	}
 
 	sel, err := patchCol(main.GetSelect(), "string", func(object sql.SQLObject) (sql.SQLObject, error) {
+		if len(l.args) == 0 {
+			// no replacement field: the line is the template text itself (format() takes a pattern and at least one argument)
+			return sql.NewStringVal(l.text), nil
+		}
 		return &sqlFormat{
 			format: l.formatStr,
 			args:   l.args,
@@ -47,7 +52,7 @@ func (l *LineFormatPlanner) ProcessTpl(ctx *shared.PlannerContext) error {
 	}
 
 	// the format string and its arguments are rebuilt by every call
-	l.formatStr, l.args = "", nil
+	l.formatStr, l.text, l.args = "", "", nil
 	return l.visitNodes(tpl.Root, l.node)
 }
 
@@ -116,6 +121,7 @@ func (l *LineFormatPlanner) node(n parse.Node) error {
 func (l *LineFormatPlanner) textNode(n parse.Node) {
 	// format() reads { and } as the delimiters of a replacement field: a literal brace is written doubled
 	l.formatStr += strings.NewReplacer("{", "{{", "}", "}}").Replace(string(n.(*parse.TextNode).Text))
+	l.text += string(n.(*parse.TextNode).Text)
 }
 
 func (l *LineFormatPlanner) fieldNode(n parse.Node) {
